@@ -409,6 +409,207 @@ def gen_headers():
     return "\n".join(L)
 
 
+def gen_matcher():
+    """match_generator.rs: constants of the suffix-store hash, the store-selection rule and the
+    comparison operators / update statements the C17 model mirrors (anchors must stay recognisable)."""
+    mg = strip_comments(read("ruzstd/src/encoding/match_generator.rs"))
+    OPRE = r"(?P<op>>=|<=|==|!=|>|<)"
+    L = ["/- GENERATED by tools/extract.py from /repo — do not edit. -/", "namespace Zstd.Gen", ""]
+    L.append("/-- `match_generator.rs commit_space` SUFFIX_STORE_MIN_CAPACITY -/")
+    L.append(f"def suffixStoreMinCapacity : Nat := {const_expr(fn_body(mg, 'commit_space', 'matcher'), 'SUFFIX_STORE_MIN_CAPACITY', 'matcher')}")
+    kb = fn_body(mg[mg.index("impl SuffixStore"):], "key", "matcher")
+    m = re.search(r"const\s+POLY\s*:\s*u64\s*=\s*(0x[0-9A-Fa-f_]+)u64\s*;", kb)
+    if not m:
+        raise ExtractError("extract:matcher:SuffixStore::key POLY")
+    L.append("/-- `SuffixStore::key` POLY -/")
+    L.append(f"def keyPoly : Nat := {num(m.group(1))}")
+    shifts = []
+    for i in range(5):
+        if not re.search(rf"let\s+s{i}\s*=\s*suffix\[{i}\]\s+as\s+u64\s*;", kb):
+            raise ExtractError(f"extract:matcher:SuffixStore::key s{i} load")
+        m = re.search(rf"let\s+s{i}\s*=\s*\(s{i}\s*<<\s*(\d+)\)\.wrapping_mul\(POLY\)\s*;", kb)
+        if not m:
+            raise ExtractError(f"extract:matcher:SuffixStore::key s{i} shift")
+        shifts.append(int(m.group(1)))
+    if not re.search(r"let\s+index\s*=\s*s0\s*\^\s*s1\s*\^\s*s2\s*\^\s*s3\s*\^\s*s4\s*;\s*let\s+index\s*=\s*index\s*>>\s*\(64\s*-\s*self\.len_log\)\s*;\s*index\s+as\s+usize\s*%\s*self\.slots\.len\(\)", kb):
+        raise ExtractError("extract:matcher:SuffixStore::key combine/shift/mod")
+    L.append("/-- `SuffixStore::key`: left shift applied to byte i before the wrapping multiply -/")
+    L.append(f"def keyShifts : List Nat := {lean_list(shifts)}")
+    ns = fn_body(mg, "next_sequence", "matcher")
+    G = []
+    G.append(("mgAtEnd", guard(ns, r"if\s+self\.suffix_idx\s*" + OPRE + r"\s*data_slice\.len\(\)", "suffix_idx ? data_slice.len()"),
+              "next_sequence `if self.suffix_idx OP data_slice.len()` (then-branch = end of block)"))
+    G.append(("mgPendingLits", guard(ns, r"if\s+self\.last_idx_in_sequence\s*" + OPRE + r"\s*self\.suffix_idx", "last_idx_in_sequence ? suffix_idx"),
+              "next_sequence `if self.last_idx_in_sequence OP self.suffix_idx` (then-branch = emit trailing literals)"))
+    G.append(("mgTailShort", guard(ns, r"if\s+data_slice\.len\(\)\s*" + OPRE + r"\s*MIN_MATCH_LEN", "data_slice.len() ? MIN_MATCH_LEN"),
+              "next_sequence `if data_slice.len() OP MIN_MATCH_LEN` (then-branch = rest is literals)"))
+    G.append(("mgCandLenOk", guard(ns, r"if\s+match_len\s*" + OPRE + r"\s*MIN_MATCH_LEN", "match_len ? MIN_MATCH_LEN"),
+              "next_sequence `if match_len OP MIN_MATCH_LEN` (then-branch = candidate accepted)"))
+    m = re.search(r"if\s+match_len\s*(?P<op1>>=|<=|==|!=|>|<)\s*old_match_len\s*\|\|\s*\(match_len\s*(?P<op2>>=|<=|==|!=|>|<)\s*old_match_len\s*&&\s*offset\s*(?P<op3>>=|<=|==|!=|>|<)\s*old_offset\)", ns)
+    if not m or m.group("op2") != "==":
+        raise ExtractError("extract:matcher:next_sequence candidate replacement rule")
+    G.append(("mgLongerWins", m.group("op1"), "next_sequence `match_len OP old_match_len` (true = replace candidate)"))
+    G.append(("mgCloserWins", m.group("op3"), "next_sequence `match_len == old_match_len && offset OP old_offset` (true = replace candidate)"))
+    rs = fn_body(mg, "reserve", "matcher")
+    G.append(("mgReserveAssert", guard(rs, r"assert!\(\s*self\.max_window_size\s*" + OPRE + r"\s*amount\s*\)", "reserve assert"),
+              "reserve `assert!(self.max_window_size OP amount)`"))
+    G.append(("mgEvictWhile", guard(rs, r"while\s+self\.window_size\s*\+\s*amount\s*" + OPRE + r"\s*self\.max_window_size", "reserve while"),
+              "reserve `while self.window_size + amount OP self.max_window_size` (true = evict the oldest entry)"))
+    cs = fn_body(mg, "commit_space", "matcher")
+    G.append(("mgStoreFits", guard(cs, r"store\.len_log\s*" + OPRE + r"\s*requested_size_log", "store.len_log ? requested_size_log"),
+              "commit_space `store.len_log OP requested_size_log` (true = pooled store is reused)"))
+    for name, op, where in G:
+        L.append(f"/-- `match_generator.rs {where}`; source operator `{op}` -/")
+        L.append(f"def {name} (a b : Nat) : Bool := decide ({OPS[op]})")
+    # statements whose exact shape the model mirrors (presence only)
+    anchors = [
+        ("offset formula", r"let\s+offset\s*=\s*match_entry\.base_offset\s*\+\s*self\.suffix_idx\s*-\s*match_index\s*;", ns),
+        ("match slice of the last entry", r"&match_entry\.data\[match_index\.\.self\.suffix_idx\]", ns),
+        ("match slice of an older entry", r"&match_entry\.data\[match_index\.\.\]", ns),
+        ("key slice", r"let\s+key\s*=\s*&data_slice\[\.\.MIN_MATCH_LEN\]\s*;", ns),
+        ("advance by match", r"self\.add_suffixes_till\(self\.suffix_idx\s*\+\s*match_len\)\s*;", ns),
+        ("advance by one", r"self\.suffix_idx\s*\+=\s*1\s*;", ns),
+        ("base offset update", r"entry\.base_offset\s*\+=\s*last_len\s*;", fn_body(mg, "add_data", "matcher")),
+        ("new entry base offset", r"base_offset\s*:\s*0\s*,", fn_body(mg, "add_data", "matcher")),
+        ("window_size update", r"self\.window_size\s*\+=\s*len\s*;", fn_body(mg, "add_data", "matcher")),
+        ("add_data assert", r"assert!\(\s*self\.window\.is_empty\(\)\s*\|\|\s*self\.suffix_idx\s*==\s*self\.window\.last\(\)\.unwrap\(\)\.data\.len\(\)\s*\)", fn_body(mg, "add_data", "matcher")),
+        ("eviction", r"let\s+removed\s*=\s*self\.window\.remove\(0\)\s*;\s*self\.window_size\s*-=\s*removed\.data\.len\(\)\s*;", rs),
+        ("suffix windows", r"slice\.windows\(MIN_MATCH_LEN\)\.enumerate\(\)", fn_body(mg, "add_suffixes_till", "matcher")),
+        ("suffix slice", r"&last_entry\.data\[self\.suffix_idx\.\.idx\]", fn_body(mg, "add_suffixes_till", "matcher")),
+        ("store size", r"usize::max\(\s*SUFFIX_STORE_MIN_CAPACITY\s*,\s*space\.len\(\)\.next_power_of_two\(\)\s*\)", cs),
+        ("common prefix chunk", r"Self::mismatch_chunks::<8>\(a,\s*b\)", fn_body(mg, "common_prefix_len", "matcher")),
+    ]
+    for name, pat, text in anchors:
+        if not re.search(pat, text):
+            raise ExtractError(f"extract:matcher:{name}")
+    # the recycling closures clear the store (both in reset and in commit_space)
+    n_clear = len(re.findall(r"suffixes\.slots\.clear\(\)\s*;\s*suffixes\.slots\.resize\(\s*suffixes\.slots\.capacity\(\)\s*,\s*None\s*\)\s*;", mg))
+    if n_clear != 2:
+        raise ExtractError(f"extract:matcher:recycled suffix store is cleared (found {n_clear} of 2 sites)")
+    L.append("/-- both recycling closures clear the suffix store (`slots.clear(); slots.resize(capacity, None)`) -/")
+    L.append("def recycledStoreCleared : Bool := true")
+    L += ["", "end Zstd.Gen", ""]
+    return "\n".join(L)
+
+
+def struct_fields(text, name, anchor):
+    m = re.search(r"\bstruct\s+" + re.escape(name) + r"\s*(<[^>]*>)?\s*\{", text)
+    if not m:
+        raise ExtractError(f"extract:{anchor}:struct {name}")
+    i = m.end() - 1
+    depth = 0
+    for j in range(i, len(text)):
+        if text[j] == "{":
+            depth += 1
+        elif text[j] == "}":
+            depth -= 1
+            if depth == 0:
+                body = text[i + 1 : j]
+                break
+    else:
+        raise ExtractError(f"extract:{anchor}:struct {name}: unbalanced")
+    body = re.sub(r"#\[[^\]]*\]", "", body)
+    fields = re.findall(r"(?:^|,|\n)\s*(?:pub(?:\([a-z]+\))?\s+)?([a-z_][a-z0-9_]*)\s*:", body)
+    if not fields:
+        raise ExtractError(f"extract:{anchor}:struct {name}: no fields")
+    return fields
+
+
+def reset_touches(body):
+    """paths `self.a(.b)*` that a reset body assigns to or clears/resets/reserves"""
+    paths = []
+    for m in re.finditer(r"self((?:\s*\.\s*[a-z_][a-z0-9_]*)+)\s*(=(?!=)|\.\s*(?:clear|reset|reserve|truncate)\s*\()", body):
+        path = [x.strip() for x in m.group(1).split(".") if x.strip()]
+        paths.append(path)
+    return paths
+
+
+def impl_fn_body(text, type_name, fn_name, anchor):
+    """body of `fn fn_name` inside `impl type_name { … }` (first impl block that has it)"""
+    for m in re.finditer(r"\bimpl(?:<[^>]*>)?\s+" + re.escape(type_name) + r"\b[^{]*\{", text):
+        i = m.end() - 1
+        depth = 0
+        for j in range(i, len(text)):
+            if text[j] == "{":
+                depth += 1
+            elif text[j] == "}":
+                depth -= 1
+                if depth == 0:
+                    block = text[i + 1 : j]
+                    if re.search(r"\bfn\s+" + re.escape(fn_name) + r"\s*(<[^>]*>)?\s*\(", block):
+                        return fn_body(block, fn_name, anchor)
+                    break
+    raise ExtractError(f"extract:{anchor}:impl {type_name}::{fn_name}")
+
+
+def gen_reset():
+    """C07: which fields each `reset` touches, against the full field list of the struct.
+    A field that a reset no longer touches (or a new field nobody resets) changes these lists and
+    breaks `Zstd.Props.C07.reset_covers_*`."""
+    fd = strip_comments(read("ruzstd/src/decoding/frame_decoder.rs"))
+    sc = strip_comments(read("ruzstd/src/decoding/scratch.rs"))
+    db = strip_comments(read("ruzstd/src/decoding/decode_buffer.rs"))
+    fse = strip_comments(read("ruzstd/src/fse/fse_decoder.rs"))
+    huf = strip_comments(read("ruzstd/src/huff0/huff0_decoder.rs"))
+    rb = strip_comments(read("ruzstd/src/decoding/ringbuffer.rs"))
+    L = ["/- GENERATED by tools/extract.py from /repo — do not edit. -/", "namespace Zstd.Gen", ""]
+
+    def emit(lean, fields, where):
+        L.append(f"/-- `{where}` -/")
+        L.append(f"def {lean} : List String := [" + ", ".join('"%s"' % f for f in fields) + "]")
+
+    def top(paths):
+        out = []
+        for p_ in paths:
+            if p_[0] not in out:
+                out.append(p_[0])
+        return out
+
+    def sub(paths, first):
+        out = []
+        for p_ in paths:
+            if p_[0] == first and len(p_) > 1 and p_[1] not in out:
+                out.append(p_[1])
+        return out
+
+    emit("frameStateFields", struct_fields(fd, "FrameDecoderState", "reset"), "frame_decoder.rs struct FrameDecoderState")
+    t = reset_touches(impl_fn_body(fd, "FrameDecoderState", "reset", "reset"))
+    emit("frameStateReset", top(t), "frame_decoder.rs FrameDecoderState::reset: fields assigned / reset")
+    emit("scratchFields", struct_fields(sc, "DecoderScratch", "reset"), "scratch.rs struct DecoderScratch")
+    t = reset_touches(impl_fn_body(sc, "DecoderScratch", "reset", "reset"))
+    emit("scratchReset", top(t), "scratch.rs DecoderScratch::reset: top-level fields touched")
+    emit("fseScratchFields", struct_fields(sc, "FSEScratch", "reset"), "scratch.rs struct FSEScratch")
+    emit("fseScratchReset", sub(t, "fse"), "scratch.rs DecoderScratch::reset: `self.fse.X` touched")
+    emit("hufScratchFields", struct_fields(sc, "HuffmanScratch", "reset"), "scratch.rs struct HuffmanScratch")
+    emit("hufScratchReset", sub(t, "huf"), "scratch.rs DecoderScratch::reset: `self.huf.X` touched")
+    emit("decodeBufferFields", struct_fields(db, "DecodeBuffer", "reset"), "decode_buffer.rs struct DecodeBuffer")
+    emit("decodeBufferReset", top(reset_touches(impl_fn_body(db, "DecodeBuffer", "reset", "reset"))), "decode_buffer.rs DecodeBuffer::reset")
+    emit("fseTableFields", struct_fields(fse, "FSETable", "reset"), "fse_decoder.rs struct FSETable")
+    emit("fseTableReset", top(reset_touches(impl_fn_body(fse, "FSETable", "reset", "reset"))), "fse_decoder.rs FSETable::reset")
+    emit("hufTableFields", struct_fields(huf, "HuffmanTable", "reset"), "huff0_decoder.rs struct HuffmanTable")
+    emit("hufTableReset", top(reset_touches(impl_fn_body(huf, "HuffmanTable", "reset", "reset"))), "huff0_decoder.rs HuffmanTable::reset")
+    emit("ringFields", struct_fields(rb, "RingBuffer", "reset"), "ringbuffer.rs struct RingBuffer")
+    emit("ringClear", top(reset_touches(impl_fn_body(rb, "RingBuffer", "clear", "reset"))), "ringbuffer.rs RingBuffer::clear")
+    # init_from_dict: what a dictionary seeds
+    t = reset_touches(impl_fn_body(sc, "DecoderScratch", "init_from_dict", "reset"))
+    body = impl_fn_body(sc, "DecoderScratch", "init_from_dict", "reset")
+    seeded = []
+    for m in re.finditer(r"self((?:\s*\.\s*[a-z_][a-z0-9_]*)+)\s*(?:=(?!=)|\.\s*(?:reinit_from|clear|extend_from_slice)\s*\()", body):
+        path = ".".join(x.strip() for x in m.group(1).split(".") if x.strip())
+        if path not in seeded:
+            seeded.append(path)
+    emit("dictSeeds", seeded, "scratch.rs DecoderScratch::init_from_dict: paths written")
+    # the initial offset history (new and reset must agree)
+    hists = re.findall(r"offset_hist\s*[:=]\s*\[\s*(\d+)\s*,\s*(\d+)\s*,\s*(\d+)\s*\]", sc)
+    if len(hists) != 2:
+        raise ExtractError("extract:reset:offset_hist initialisers")
+    L.append("/-- `scratch.rs` initial offset history in `new` and in `reset` -/")
+    L.append(f"def offsetHistNew : List Nat := [{', '.join(hists[0])}]")
+    L.append(f"def offsetHistReset : List Nat := [{', '.join(hists[1])}]")
+    L += ["", "end Zstd.Gen", ""]
+    return "\n".join(L)
+
+
 MODULES = {
     "Consts": gen_consts,
     "DecTables": gen_dectables,
@@ -416,6 +617,8 @@ MODULES = {
     "Dists": gen_dists,
     "Guards": gen_guards,
     "Headers": gen_headers,
+    "Reset": gen_reset,
+    "Matcher": gen_matcher,
 }
 
 
